@@ -393,7 +393,7 @@ func bxvCompareParse(in string, fails *[]bxvFailure) {
 // ---- C15: bounded exhaustive comparison over token sequences ---------------------------
 
 var bxvLangTokens = []string{"a", "b1", "not", "and", "or", "in", "is", "empty", "contains", "matches", "any", "all", "as", "nota", "anyx", "inx", "_", ",", ".", "{", "}", "(", ")", "[", "]",
-	"==", "!=", "0", "12", "1.5", "-1", "01", "1.", "\"x\"", "`y`", "\"/a/b\"", "\"/a~1b\"", "\"\"", "\"x", "`y", "\"\\q\"", "\"\\\\\"", "\"a\\\\\"", "\"\\\"\"", ".0", ".b", "[\"k\"]", "[`k`]", "\xff"}
+	"==", "!=", "0", "12", "1.5", "-1", "01", "1.", "\"x\"", "`y`", "\"/a/b\"", "\"/a~1b\"", "\"\"", "\"x", "`y", "\"\\q\"", "\"\\\\\"", "\"a\\\\\"", "\"\\\"\"", "\ufffd", "\"\ufffd\"", "`\ufffd`", ".0", ".b", "[\"k\"]", "[`k`]", "\xff"}
 
 var bxvCoreTokens = []string{"a", "not", "and", "or", "in", "is", "empty", "any", "as", "x", ",", "{", "}", "(", ")", "==", "1", "\"s\"", "_", "matches"}
 
@@ -509,6 +509,7 @@ func bxvLangCases(fails *[]bxvFailure, stats map[string]int, samples *[]string) 
 		"any a as x { x == 1 }", "all a.b as i, v { v == 1 }", "any a as _, v { v == 1 }", "any a as i, _ { i == 1 }", "any a as x{x == 1}", "any a as x { x == 1 } and b == 2", "(any a as x { x == 1 }) or b == 2",
 		"b == 2 or any a as x { x == 1 }", "b == 2 and any a as x { x == 1 }", "any a as x { any x as y { y == 1 } }", "anya as x { x == 1 }", "any a asx { x == 1 }", "any a as x, { x == 1 }", "notes == 3", "nota == 1",
 		"not(a == 1)", "a == 1 andb == 2", "a == 1 and not b == 2", "inx == 1", "a == 1 or", "or a == 1", "a ==", "== 1", "a == 1 b == 2", "a in", "in a", "x in 1", "a matches", "is empty", "a is", "a is not",
+		"a == 1 \ufffd and this is not an expression ((", "a == 1\ufffd", "a == \"x\ufffdy\"", "a == `x\ufffdy`", "a[\"\ufffd\"] == 1", "\"/a\ufffd\" == 1", "a\ufffd == 1", "\ufffd == 1", "a == \ufffd", "a == 1 \ufeff", "a == 1\u00a0",
 		"a == \"\\q\"", "a == \"a\\\"", "a == \"C:\\\\\"", "a == \"C:\\\\\" and b == \"x\"", "a == \"\\\\\\\"\"", "a == \"\\\\\\\\\"", "a[\"k\\\\\"] == 1", "a == \"\\n\\t\\\\\"", "a[\"\\x\"] == 1", "a == \"\xff\"", "a == `\xc3\x28`", "\xff", "a\x00 == 1", "é == 1", "a == é", "a == \"é\"",
 	} {
 		try(s)
@@ -827,13 +828,13 @@ func bxvRoundTripCases(fails *[]bxvFailure, stats map[string]int, samples *[]str
 	}
 	stats["distinct_texts"] = len(seen)
 	// literal fidelity: X == <quoted s> is true of X = s
-	strs := []string{"", "a", "two words", "é", "日本語", "\"quoted\"", "back\\slash", "/usr/bin", "/a~1b", "/a~0b/c", "~", "line\nbreak", "tab\t", "\x00", "`tick`", "a`b\"c", "{}", "not", "1", "-1.5", "0x10", "true", " lead", "trail ", "\u2028", "\U0001F600"}
+	strs := []string{"", "a", "two words", "é", "日本語", "\"quoted\"", "back\\slash", "/usr/bin", "/a~1b", "/a~0b/c", "~", "line\nbreak", "tab\t", "\x00", "`tick`", "a`b\"c", "{}", "not", "1", "-1.5", "0x10", "true", " lead", "trail ", "\u2028", "\U0001F600", "\ufffd", "a\ufffdb", "\ufffd\ufffd", "\ufeff", "x\u0080y", "\u07ff", "\uffff", "\U0010ffff", "ends\\", "\\\\", "q\"\\"}
 	for i := 0; i < 200; i++ {
 		var sb strings.Builder
 		x := uint32(i*2654435761 + 12345)
 		for j := 0; j < 1+i%7; j++ {
 			x = x*1664525 + 1013904223
-			alpha := []rune(" aZ09/~\"\\`'{}[]().,:|_-=!\t\né日")
+			alpha := []rune(" aZ09/~\"\\`'{}[]().,:|_-=!\t\né日\ufffd")
 			sb.WriteRune(alpha[int(x>>16)%len(alpha)])
 		}
 		strs = append(strs, sb.String())
